@@ -323,6 +323,14 @@ func c16Run(in V) V {
 			src.data[j] ^= 0xFF
 		}
 		rd.Release(nil)
+		// recycle the reader's buffer memory: a second reader pulls as many 0xEE bytes through bufiox
+		junk := make([]byte, len(src.data)+64)
+		for j := range junk {
+			junk[j] = 0xEE
+		}
+		rd2 := bufiox.NewDefaultReader(&c16Src{data: junk, final: io.EOF})
+		rd2.Next(len(junk))
+		rd2.Release(nil)
 	}
 	for _, r := range results {
 		if r.ok && r.want != nil && r.cur() == string(r.want) {
